@@ -224,6 +224,18 @@ def build_items(tier):
     # the same through servers and clients configured with another encoding (names that encoding can represent)
     for enc in ("latin-1", "cp1251"):
         pool = [n for n in names(1) + NATIVE[enc]]
+        # every high byte of the single-byte encoding inside a name, and 0xFF followed by every telnet command code
+        # (0xF0..0xFF): in these encodings they are ordinary letters
+        for b in range(0x80, 0x100):
+            try:
+                pool.append("a" + bytes([b]).decode(enc) + "b")
+            except UnicodeDecodeError:
+                pass
+        for b in range(0xF0, 0x100):
+            try:
+                pool.append("p" + bytes([0xFF, b]).decode(enc) + "q")
+            except UnicodeDecodeError:
+                pass
         ok = []
         for n in pool:
             try:
@@ -245,7 +257,7 @@ def run(tier, seed, t0):
     part = report.merge_all(report.pmap(work, items))
     bounds = {"alphabet": SIGMA, "max_len": 2 if tier == "quick" else 3, "fixed": FIXED, "depths": [1, 2],
               "servers": ["MLSD/MLST", "LIST fallback (mlst/mlsd removed)"],
-              "encodings": ["utf-8 (all names)", "latin-1 and cp1251 (single characters, fixed list, native names)"]}
+              "encodings": ["utf-8 (all names)", "latin-1 and cp1251 (single characters, fixed list, native names, every high byte, 0xFF + telnet command bytes)"]}
     return report.finish(
         PID, tier, seed, "model_checking", part, t0,
         rule="every name (no trailing whitespace, not '.'/'..') x depth x server flavour: one session through the real "
